@@ -470,9 +470,17 @@ func c13Differential(x *mc.Cell, role Role) {
 				defer nat.Stop()
 				chid, _ := nat.Create(role, 1, doubles.Voucher("T", "v1"))
 				cur, _ := nat.Vec(chid)
+				// cachesExact: the native channel's progress / block-index caches still agree with its stored state. A
+				// block report that the state machine ignores (transfer not moving in that status) is nevertheless
+				// counted by the caches, so after one the warm native channel is no reference for a cold one any more.
+				cachesExact := true
 				for _, i := range h {
+					prev := cur
 					_ = nat.Apply(ops[i], chid, cur)
 					cur, _ = nat.Vec(chid)
+					if strings.HasPrefix(Alphabet[ops[i]].Name, "Data") && sameProgress(prev, cur) {
+						cachesExact = false
+					}
 				}
 				// representable in v2? pause flags only exist as the three deprecated statuses
 				st := cur.Status
@@ -537,6 +545,38 @@ func c13Differential(x *mc.Cell, role Role) {
 				a3, _ := mig.Vec(chid)
 				if a3.String() != a1.String() {
 					x.Violate("C13", "differential;persist;op="+op.Name, fmt.Sprintf("after reopen: %s\nwant: %s", a3, a1), rep)
+				}
+				// "accept further events like native ones", two events deep and including what the calls return: the
+				// limit is moved to just above the progress made so far (on the reopened store that is the first
+				// progress-relevant call of the process), then one more block is reported in each direction. The
+				// pause signal and the resulting state must be those of the native channel.
+				if strings.HasPrefix(op.Name, "Data") && sameProgress(a1, cur) {
+					cachesExact = false
+				}
+				if !Terminal(a1.Status) && cachesExact {
+					x.Note("limit_probes", 1)
+					probe := func(s *Sys, v views.Vec) (string, views.Vec) {
+						out := ""
+						step := func(what string, err error) {
+							mc.Wait()
+							out += fmt.Sprintf("%s->%v; ", what, err)
+						}
+						step("SetDataLimit(queued+1)", s.Ch.SetDataLimit(chid, v.Queued+1))
+						step("ResumeResponder", s.Ch.ResumeResponder(chid))
+						step("DataQueued", s.Ch.DataQueued(chid, doubles.Cid("p1"), 1, v.QIdx+1, true))
+						w, _ := s.Vec(chid)
+						step("SetDataLimit(received+1)", s.Ch.SetDataLimit(chid, w.Received+1))
+						step("DataReceived", s.Ch.DataReceived(chid, doubles.Cid("p2"), 1, w.RIdx+1, true))
+						step("DataReceived", s.Ch.DataReceived(chid, doubles.Cid("p3"), 1, w.RIdx+2, true))
+						w, _ = s.Vec(chid)
+						return out, w
+					}
+					o1, p1 := probe(nat, a1)
+					o2, p2 := probe(mig, a3)
+					if o1 != o2 || p1.String() != p2.String() {
+						x.Violate("C13", fmt.Sprintf("differential;limit-probe;from=%s;returns-differ=%v;field=%s", datatransfer.Statuses[a1.Status], o1 != o2, firstDiffField(p1.String(), p2.String())),
+							fmt.Sprintf("moving the limit just above the progress and reporting further blocks behaves differently on a migrated (reopened) channel:\n  native:   %s\n            %s\n  migrated: %s\n            %s", o1, p1, o2, p2), rep)
+					}
 				}
 				x.Outcome(a1.String())
 			})
@@ -649,4 +689,9 @@ func init() {
 	mc.Register("C13", "records-full", "thorough", func(x *mc.Cell) { c13Records(x, true) })
 	mc.Register("C13", "multi-channel", "both", c13MultiChannel)
 	mc.Register("C13", "not-ready", "both", c13NotReady)
+}
+
+// sameProgress: no counter or block index differs between the two vectors.
+func sameProgress(a, b views.Vec) bool {
+	return a.Queued == b.Queued && a.Sent == b.Sent && a.Received == b.Received && a.QIdx == b.QIdx && a.SIdx == b.SIdx && a.RIdx == b.RIdx
 }
